@@ -343,6 +343,13 @@ def c14_braycurtis():
     return _grad_witness("braycurtis", _X, _Y)
 
 
+def c14_hellinger_zero():
+    """one-dimensional input: the Hellinger distance is identically 0 (differentiable, derivative 0)"""
+    import umap.distances as D
+    d, g = D.hellinger_grad(np.array([0.3]), np.array([0.7]))
+    return None if (d == 0.0 and np.all(np.asarray(g) == 0.0)) else f"hellinger_grad([0.3], [0.7]) = ({d}, {np.asarray(g).tolist()})"
+
+
 def c14_symmetric_kl():
     return _grad_witness("symmetric_kl", np.abs(_X) + 0.1, np.abs(_Y) + 0.1)
 
@@ -444,6 +451,7 @@ WITNESSES = {
     "C14:cosine_grad": c14_cosine,
     "C14:correlation_grad": c14_correlation,
     "C14:hellinger_grad": c14_hellinger,
+    "C14:hellinger_grad-zero-distance": c14_hellinger_zero,
     "C14:bray_curtis_grad": c14_braycurtis,
     "C14:symmetric_kl_grad": c14_symmetric_kl,
     "C14:gaussian_energy_grad": c14_gaussian_energy,
